@@ -2,6 +2,8 @@
 expressions) over a finite partition of the inputs. Anything outside the subset raises Undecided."""
 import itertools
 
+CONST_VALUES = {}     # path -> value, for constants of the analysed crate whose initialisers are literals (see register_constants)
+
 NARROW = {"u8": (0, 2 ** 8 - 1), "u16": (0, 2 ** 16 - 1), "u32": (0, 2 ** 32 - 1), "i8": (-2 ** 7, 2 ** 7 - 1), "i16": (-2 ** 15, 2 ** 15 - 1),
           "i32": (-2 ** 31, 2 ** 31 - 1)}
 
@@ -160,6 +162,8 @@ class Evaluator:
                 return NONE
             if _is_variant_path(n[1]):
                 return ("variant", n[1])       # a unit variant of an enum
+            if n[1] in CONST_VALUES:
+                return CONST_VALUES[n[1]]      # a constant of the crate whose initialiser is literals (registered by the rule)
             raise Undecided(f"constant {n[1]}")
         if k == "not":
             return not self._bool(self.ev(n[1]))
@@ -440,6 +444,13 @@ class Evaluator:
         if short in ("trim",):
             v = self.ev(args[0])
             return v.strip() if isinstance(v, str) else v
+        if short in ("trim_matches", "trim_start_matches", "trim_end_matches") and len(args) == 2:
+            v = self.ev(args[0])
+            pat = self.ev(args[1])
+            chars = pat if isinstance(pat, str) and len(pat) == 1 else "".join(pat) if isinstance(pat, (list, tuple)) and pat and all(isinstance(c_, str) and len(c_) == 1 for c_ in pat) else None
+            if isinstance(v, str) and chars is not None:
+                return v.strip(chars) if short == "trim_matches" else v.lstrip(chars) if short == "trim_start_matches" else v.rstrip(chars)
+            raise Undecided(f"{short} of {v!r} by {pat!r}")
         if short in ("unwrap_or",):
             v = self.ev(args[0])
             if v is NONE:
@@ -471,3 +482,24 @@ def product(domains):
     keys = list(domains)
     for combo in itertools.product(*[domains[k] for k in keys]):
         yield dict(zip(keys, combo))
+
+
+def register_constants(F):
+    """the constants of the crate whose initialiser is a literal or an array / tuple of literals (`const XSD_WHITE_SPACE: [char; 4]`)
+    get their values here, read off their text"""
+    from . import ceval
+    ip = None
+    for cr in (F.lib,):
+        for c in cr.items.get("consts", []):
+            ty = str(c.get("ty", "")).replace(" ", "")
+            if not ty.startswith(("[char;", "char", "&str", "&'static str", "[&str;", "[&'staticstr;", "&[char", "&[&str", "&'static[", "usize", "u8", "u32", "u64", "i32")):
+                continue
+            try:
+                ip = ip or ceval.Concrete(F)
+                v = ip.const(c["path"], {"sp": c.get("span")})
+            except Exception:       # noqa: BLE001 (an initialiser outside the evaluator's subset: the constant stays unknown)
+                continue
+            if isinstance(v, (str, int)) and not isinstance(v, bool):
+                CONST_VALUES[c["path"]] = v
+            elif isinstance(v, (list, tuple)) and all(isinstance(x, (str, int)) for x in v):
+                CONST_VALUES[c["path"]] = tuple(v)
